@@ -837,8 +837,50 @@ Corollary extend_curve (e : envR) d e' : pwf e -> env_extend_until R RNum e d = 
   pwf e' /\ (forall x, curve e' x = curve e x) /\ In d (pstarts R e').
 Proof. intros W H. apply (sample_curve e d 0 e' W); [lia|exact H]. Qed.
 
+(* sample_at never fails on a non-empty well-formed envelope and non-negative arguments *)
+Theorem sample_total (e : envR) t ap : pwf e -> e <> [] -> 0 <= t -> 0 <= ap ->
+  exists e', sample_at R RNum e t ap = Ok e'.
+Proof.
+  intros W Ne T0 Hap. rewrite sample_at_body by exact Ne. unfold sample_body, check_time.
+  destruct (Z.ltb_spec t 0); [lia|]. cbn [bind]. cbv zeta.
+  destruct (memZ t (pstarts R e)) eqn:M; [eexists; reflexivity|].
+  assert (N : ~ In t (pstarts R e)). { intros N. apply memZ_In in N. congruence. }
+  rewrite value_at_curve' by exact Ne. rewrite curve_shape_at_nonneg by assumption. cbn [bind].
+  destruct (Z_lt_le_dec t (pdur R e)) as [L|L].
+  - destruct (split_inside t e 0 W) as (front & p & back & E & B); [lia|exact N|].
+    rewrite !Z.add_0_l in B. subst e.
+    rewrite (inside_pindex front p back t W B).
+    rewrite nth_error_app_length, set_shape_app.
+    rewrite (inside_bisect front p back t W B), inside_next.
+    pose proof W as W'.
+    apply pwf_app in W'; destruct W' as [Wf W']; apply pwf_cons in W'; destruct W' as [Wp Wb].
+    pose proof (pdur_nonneg _ Wf) as Nf. pose proof (pdur_nonneg _ Wb) as Nb.
+    set (p' := mkPt (pd p) (pv p) _).
+    rewrite pdur_app. cbn [pdur pd p'].
+    destruct (Z.ltb_spec (pdur R front + (pd p + pdur R back)) t); [lia|].
+    destruct back as [|q back].
+    + assert (W1 : gwf (front ++ [p'])).
+      { apply gwf_app. split; [exact Wf|]. apply gwf_cons. split; [exact Wp|constructor]. }
+      destruct (Z_le_gt_dec (pdur R front + pd p - t) ap) as [A|A].
+      * rewrite squash_last_long; [eexists; reflexivity|exact W1|exact B|exact A].
+      * rewrite squash_last_short; [eexists; reflexivity|exact W1|exact B|unfold p'; cbn [pd]; lia].
+    + assert (W1 : gwf (front ++ p' :: q :: back)).
+      { apply gwf_app. split; [exact Wf|]. apply gwf_cons. split; [exact Wp|exact Wb]. }
+      rewrite squash_mid; [eexists; reflexivity|exact W1|exact B|reflexivity].
+  - unfold pindex_at, index_at_from.
+    destruct (Z.ltb_spec t (pdur R e)); [lia|]. cbn [andb].
+    rewrite (bisect_right_all t (pstarts R e)) by (apply starts_le; [exact W|lia]).
+    assert (E0 : nth_error (pstarts R e) (length (pstarts R e)) = None) by (apply nth_error_None; lia).
+    rewrite E0.
+    destruct (Z.ltb_spec (pdur R e) t) as [L1|L1].
+    + destruct (exists_last Ne) as (init & l & E). subst e. rewrite rev_unit. eexists; reflexivity.
+    + assert (t = pdur R e) by lia. subst t.
+      rewrite squash_at_end; [eexists; reflexivity|exact W|exact N|exact Hap].
+Qed.
+
 Print Assumptions segR_split_left.
 Print Assumptions segR_split_right.
 Print Assumptions curve_divide.
 Print Assumptions sample_curve.
 Print Assumptions extend_curve.
+Print Assumptions sample_total.
